@@ -12,7 +12,7 @@ BASE = ("Trusted: Kani's MIR->GOTO translation, CBMC, CaDiCaL; the oracles in /v
 
 # Properties whose registered check has been run green, end to end, on the unchanged tree by the main session.
 # gen_manifest.py lists every other property under not_applicable ("under construction") even if harnesses exist.
-CLAIMED = ["C13"]
+CLAIMED = ["C05", "C06", "C13", "C19"]
 
 MANIFEST_TEXT = {
     "C01": dict(
